@@ -241,7 +241,11 @@ def owner_fn(prog, path, _depth=0):
 
 def call_sites(prog, callee):
     """[(owner fn path, Body, block)] of all call sites (resolved or declared) of `callee`."""
-    return [(owner_fn(prog, b.path), b, bi) for b, bi in prog.callers_of(callee)]
+    out = []
+    for b, bi in prog.callers_of(callee):
+        hb, hbi = prog.host_site(b, bi)
+        out.append((owner_fn(prog, hb.path), hb, hbi))
+    return out
 
 
 def construct_sites(prog, adt, variant=None):
@@ -249,7 +253,7 @@ def construct_sites(prog, adt, variant=None):
     cache = prog.__dict__.setdefault('_aggidx', None)
     if cache is None:
         cache = defaultdict(list)
-        for p, b in prog.bodies.items():
+        for p, b in prog.analysis_bodies():
             for bi in b.reachable():
                 for s in b.stmts(bi):
                     if s['k'] == 'a' and s['rv'][0] == 'agg' and s['rv'][1][0] == 'adt':
@@ -268,7 +272,7 @@ def field_write_sites(prog, adt, field):
     idx = prog.__dict__.setdefault('_fwidx', None)
     if idx is None:
         idx = defaultdict(list)
-        for p, b in prog.bodies.items():
+        for p, b in prog.analysis_bodies():
             for bi, st, pl, fs in b.field_writes():
                 if fs:
                     idx[(fs[-1][1], fs[-1][0])].append((b, bi, st, 'write'))
@@ -287,7 +291,7 @@ def field_read_sites(prog, adt, field):
     idx = prog.__dict__.setdefault('_fridx', None)
     if idx is None:
         idx = defaultdict(list)
-        for p, b in prog.bodies.items():
+        for p, b in prog.analysis_bodies():
             for bi in b.reachable():
                 for s in b.stmts(bi):
                     if s['k'] == 'a':
